@@ -23,6 +23,9 @@ def base_family(ctx):
     for _ in range(20 if ctx.quick else 400):
         out.append(progs.gen_mixed(r))
     out.append("cfg x=1 | T0: spawn 1; ld 0 rlx; st 0 1 rlx; join 1; ld 0 rlx | T1: ld 0 rlx; st 0 10 rlx")
+    from gen import corpus
+    out += corpus.corpus("C15")
+    out += families.exhaustive("notify", 2, 2, n // 2, r.fork("n2"))
     return list(dict.fromkeys(out))
 
 
